@@ -143,6 +143,14 @@ class C18:
                     tweaks.append((si, "filter_size", 5 if p_.get("filter_size", 3) != 5 else 3))
                 elif "matching_cost_method" in p_ and p_["matching_cost_method"] != "census":
                     tweaks.append((si, "window_size", 3 if p_.get("window_size", 5) != 3 else 5))
+                    if p_.get("band"):
+                        from sim.world import BAND_NAMES
+
+                        wb = worlds[twin["world"]]
+                        others = [b_ for b_ in (wb.get("band_names") or BAND_NAMES)[: wb["bands"]] if b_ != p_["band"]]
+                        if others:
+                            tweaks.append((si, "band", rnd.choice(others)))
+                            tweaks.append((si, "band", rnd.choice(others)))
                 elif p_.get("confidence_method") in ("ambiguity", "risk"):
                     tweaks.append((si, "eta_max", 0.5 if p_.get("eta_max", 0.7) != 0.5 else 0.33))
                 elif "aggregation_method" in p_:
